@@ -1,15 +1,9 @@
 (* C02 — RFC 9535 filter expressions select exactly the nodes the RFC makes true.
    Statements only; proofs live in proofs/EvalProofs.v. *)
-From JP Require Import Base Json Syntax Eval Rfc9535 Rfc9535Typing EvalProofs.
+From JP Require Import Base Json Syntax Eval Rfc9535 Rfc9535Typing EvalCorr EvalProofs.
 
-Definition node_of (m : jmatch) : node := (m_parts m, m_val m).
-
-(* a specification operand (Nothing or a value) and every run-time form in which the code can
-   hand it to the comparison: Nothing is an empty node list or the UNDEFINED sentinel *)
-Inductive repr : fval -> option json -> Prop :=
-| repr_val v : repr (VVal v) (Some v)
-| repr_undef : repr VUndef None
-| repr_empty : repr (VNodes []) None.
+(* [repr] (a specification operand and its run-time forms) and [node_of] are defined in
+   spec/EvalCorr.v *)
 
 (* the comparison table, for all operands (every JSON value at every depth, and Nothing) in
    every run-time form, and the six operators *)
